@@ -141,11 +141,11 @@ Theorem model_terms_boundary facX N t u s acc xs es :
   Forall2 (fun m tm => (m < 0 -> tm = PInf /\ pv tm = Fin 0) /\ (u < m -> tm = Fin 1 /\ pv tm = Fin 1))
           (mscan (mu_out N t) sj_step s xs) (model_terms facX N t u s acc xs es).
 Proof.
-  intros Hu HL. unfold model_terms.
+  intros Hu HL. unfold model_terms, model_terms_z. cbv zeta.
   set (ms := mscan (mu_out N t) sj_step s xs).
-  set (raw := xcumprod acc (map3 facX xs es ms)).
+  set (raw := absorb xis_zero (Fin 0) false (map3 facX xs es ms) (xcumprod acc (map3 facX xs es ms))).
   assert (Hlen : length raw = length ms).
-  { unfold raw, ms. rewrite xcumprod_length, map3_length3; rewrite ?mscan_length; auto. }
+  { unfold raw, ms. rewrite absorb_length by apply xcumprod_length. rewrite map3_length3; rewrite ?mscan_length; auto. }
   clearbody raw ms. revert raw Hlen. induction ms as [|m mr IH]; intros [|a ar] Hlen; simpl in *; try discriminate; constructor.
   - split; intro H.
     + rewrite override_below0 by auto. split; reflexivity.
